@@ -7,6 +7,9 @@
 (*   xref body trailer dict startxref number %%EOF      (table)             *)
 (* or                  startxref number %%EOF           (xref stream; the   *)
 (*                     cross-reference stream is obj_n itself).             *)
+(* Stream bodies may contain LINES that start with xref, trailer, startxref *)
+(* or %%EOF (kinds "mstreamT", "mstreamE"): the marker search takes them    *)
+(* for markers, which moves section boundaries but must lose no object.     *)
 (* An object is a sequence of tokens  hdr ws <value tokens> ws endobj ; the *)
 (* value tokens depend on the kind of the object.  Every token has an      *)
 (* abstract length, so a crash point `cut` (a byte offset) falls either on  *)
@@ -28,7 +31,9 @@ CONSTANTS Kinds,          \* kinds of objects a file may contain
           Tails,          \* subset of {"table", "xrefstm"}
           Damages,        \* subset of {"none","xrefbody","xrefdata","startxref"}
           EOF_IS_BROKEN,  \* FALSE: as coded, TRUE: as the property demands
-          TRIM_TWICE      \* TRUE: as coded (see ReadVal), FALSE: as the property demands
+          TRIM_TWICE,     \* TRUE: as coded (see ReadVal), FALSE: as the property demands
+          USED_HOISTED    \* FALSE: as coded; TRUE: a plausible refactoring of locateObjects
+                          \* (`used = true` once before the switch) that loses sections
 
 \* ------------------------------------------------------------------ tokens
 Tok(c, x, n) == [cls |-> c, ctx |-> x, len |-> n]
@@ -50,6 +55,12 @@ Body(kind) ==
     [] kind = "dict" -> DictToks
     \* "istream": a stream whose /Length is an indirect object written right
     \* after it (non-seekable sink, body over 1 kB) and whose body ends in an EOL
+    \* "mstreamT" / "mstreamE": a stream whose body contains a LINE starting
+    \* with trailer | xref | startxref, resp. with %%EOF (permitted content;
+    \* locateObjects cannot tell such a line from a marker)
+    [] kind \in {"mstreamT", "mstreamE"} ->
+         DictToks \o <<Ws("top"), Tok("streamkw", "top", 2), Tok("data", "stm", 2), Tok("mline", "stm", 2),
+                       Tok("data", "stm", 2), Tok("endstream", "stm", 2)>>
     [] kind \in {"stream", "istream"} -> DictToks \o <<Ws("top"), Tok("streamkw", "top", 2), Tok("data", "stm", 2), Tok("endstream", "stm", 2)>>
 ObjToks(kind) == <<Tok("hdr", "top", 2), Ws("top")>> \o Body(kind) \o <<Ws("top"), Tok("endobj", "top", 2)>>
 
@@ -75,6 +86,24 @@ TailLen(tail) == 2 * Len(TailToks(tail))
 FileLen(kinds, tail) == TailStart(kinds) + TailLen(tail)
 MarkerEnd(kinds, tail, j) == TailStart(kinds) + 2 * j   \* end of the j-th tail piece
 IsMarker(w) == w \in {"xref", "trailer", "startxref", "eof"}
+\* everything markerRegexp matches, in file order: object headers, marker-like
+\* lines inside stream bodies, the keywords of the tail.  ty: "obj", "word"
+\* (xref | trailer | startxref), "eof" (%%EOF); end: offset just after the match
+MLineEnd(kind) == TokEnd(kind, CHOOSE k \in 1..Len(ObjToks(kind)) : ObjToks(kind)[k].cls = "mline")
+RECURSIVE ObjMarkers(_, _)
+ObjMarkers(ks, i) ==
+  IF i > Len(ks) THEN <<>>
+  ELSE <<[ty |-> "obj", o |-> i, end |-> HdrEndOf(ks, i)]>>
+       \o (IF ks[i] \in {"mstreamT", "mstreamE"}
+           THEN <<[ty |-> IF ks[i] = "mstreamT" THEN "word" ELSE "eof", o |-> i, end |-> StartOf(ks, i) + MLineEnd(ks[i])]>>
+           ELSE <<>>)
+       \o ObjMarkers(ks, i + 1)
+TailMarkers(ks, t) ==
+  SelectSeq([j \in 1..Len(TailToks(t)) |->
+               [ty |-> IF TailToks(t)[j] = "eof" THEN "eof" ELSE IF IsMarker(TailToks(t)[j]) THEN "word" ELSE "skip",
+                o |-> 0, end |-> MarkerEnd(ks, t, j)]],
+            LAMBDA m : m.ty # "skip")
+Markers(ks, t) == ObjMarkers(ks, 1) \o TailMarkers(ks, t)
 
 \* ------------------------------------------------------------ the property
 \* is stated in SeqScanRef (Ref... operators over byte offsets); here the
@@ -127,20 +156,23 @@ VARIABLES kinds,    \* the file: sequence of object kinds
           cut,      \* crash point (FileLen = intact), -1 before it is chosen
           damage,   \* which cross-reference data has been overwritten
           phase,    \* build, locate, check, read, done
-          mpos,     \* locate: next thing to look at (1..n objects, then tail pieces)
-          listed,   \* objects with a FileObject
-          nsect,    \* number of sections closed so far
+          mpos,     \* locate: index of the next marker (0: the file header)
+          listed,   \* objects with a FileObject in fi.Sections
+          nsect,    \* number of sections appended so far
+          cursec,   \* locateObjects: objects of the section under construction
           used,     \* locateObjects: current section has content
+          inTr,     \* locateObjects: inTrailer
+          M,        \* Markers(kinds, tail), computed once when the fault is chosen
           cur,      \* check: candidate being parsed (0: none)
           tk,       \* check: next token of cur
           st,       \* status of each object: "-", "ok", "broken"
           val,      \* what Read returns: "-", "v", "err"
           res       \* "-", "ok", "abort", "nopdf", "nocontent"
-vars == <<kinds, tail, cut, damage, phase, mpos, listed, nsect, used, cur, tk, st, val, res>>
+vars == <<kinds, tail, cut, damage, phase, mpos, listed, nsect, cursec, used, inTr, M, cur, tk, st, val, res>>
 
 N == Len(kinds)
 Init == /\ kinds = <<>> /\ tail = "?" /\ cut = -1 /\ damage = "none" /\ phase = "build"
-        /\ mpos = 0 /\ listed = {} /\ nsect = 0 /\ used = FALSE /\ cur = 0 /\ tk = 0
+        /\ mpos = 0 /\ listed = {} /\ nsect = 0 /\ cursec = {} /\ used = FALSE /\ inTr = FALSE /\ M = <<>> /\ cur = 0 /\ tk = 0
         /\ st = <<>> /\ val = <<>> /\ res = "-"
 
 \* -- building the file and choosing the fault (actions, so that workers share)
@@ -148,16 +180,16 @@ AddObj(k) == /\ phase = "build" /\ tail = "?" /\ N < MaxObjs
              /\ k = "istream" => N + 1 < MaxObjs               \* its length object follows
              /\ (N >= 1 /\ kinds[N] = "istream") => k = "int"
              /\ kinds' = Append(kinds, k)
-             /\ UNCHANGED <<tail, cut, damage, phase, mpos, listed, nsect, used, cur, tk, st, val, res>>
+             /\ UNCHANGED <<tail, cut, damage, phase, mpos, listed, nsect, cursec, used, inTr, M, cur, tk, st, val, res>>
 CloseFile(t) == /\ phase = "build" /\ tail = "?" /\ N >= 1 /\ kinds[N] # "istream"
                 /\ tail' = t
                 /\ kinds' = IF t = "xrefstm" THEN Append(kinds, "stream") ELSE kinds
-                /\ UNCHANGED <<cut, damage, phase, mpos, listed, nsect, used, cur, tk, st, val, res>>
+                /\ UNCHANGED <<cut, damage, phase, mpos, listed, nsect, cursec, used, inTr, M, cur, tk, st, val, res>>
 Begin(c, d) == /\ phase = "build" /\ tail # "?"
                /\ cut' = c /\ damage' = d
-               /\ phase' = "locate" /\ mpos' = 0
+               /\ phase' = "locate" /\ mpos' = 0 /\ M' = Markers(kinds, tail)
                /\ st' = [i \in 1..N |-> "-"] /\ val' = [i \in 1..N |-> "-"]
-               /\ UNCHANGED <<kinds, tail, listed, nsect, used, cur, tk, res>>
+               /\ UNCHANGED <<kinds, tail, listed, nsect, cursec, used, inTr, cur, tk, res>>
 Truncate == /\ phase = "build" /\ tail # "?"
             /\ \E c \in 0..FileLen(kinds, tail) : Begin(c, "none")
 Damage(d) == /\ phase = "build" /\ tail # "?"
@@ -171,46 +203,55 @@ LocHeader == /\ phase = "locate" /\ mpos = 0
              /\ IF HeaderLen <= cut
                 THEN mpos' = 1 /\ UNCHANGED <<phase, res>>
                 ELSE res' = "nopdf" /\ phase' = "done" /\ UNCHANGED mpos
-             /\ UNCHANGED <<kinds, tail, cut, damage, listed, nsect, used, cur, tk, st, val>>
-\* an object header matches when its text lies completely below the cut
-LocObj == /\ phase = "locate" /\ mpos \in 1..N /\ HdrEndOf(kinds, mpos) <= cut
-          /\ listed' = listed \cup {mpos} /\ used' = TRUE /\ mpos' = mpos + 1
-          /\ UNCHANGED <<kinds, tail, cut, damage, phase, nsect, cur, tk, st, val, res>>
-\* a tail piece; overwritten pieces match no marker (and unmarked pieces are
-\* skipped by the search anyway)
-LocTail == /\ phase = "locate" /\ mpos > N /\ mpos - N <= Len(TailToks(tail))
-           /\ MarkerEnd(kinds, tail, mpos - N) <= cut
-           /\ LET w == TailToks(tail)[mpos - N]
-              IN IF IsMarker(w)
-                 THEN IF w = "eof" THEN nsect' = nsect + 1 /\ used' = FALSE   \* finish()
-                      ELSE used' = TRUE /\ UNCHANGED nsect
-                 ELSE UNCHANGED <<nsect, used>>
-           /\ mpos' = mpos + 1
-           /\ UNCHANGED <<kinds, tail, cut, damage, phase, listed, cur, tk, st, val, res>>
+             /\ UNCHANGED <<kinds, tail, cut, damage, listed, nsect, cursec, used, inTr, M, cur, tk, st, val>>
+\* finish(): the section under construction is appended if it is used
+Keep(u) == /\ listed' = IF u THEN listed \cup cursec ELSE listed
+           /\ nsect' = IF u THEN nsect + 1 ELSE nsect
+\* a marker matches when its text lies completely below the cut
+LocMarker ==
+  /\ phase = "locate" /\ mpos \in 1..Len(M) /\ M[mpos].end <= cut
+  /\ LET m == M[mpos]
+     IN CASE m.ty = "obj" ->
+               \* an object header after a trailer keyword starts a new section
+               IF inTr
+               THEN /\ Keep(used \/ USED_HOISTED)
+                    /\ cursec' = {m.o} /\ inTr' = FALSE
+                    \* as coded `used = true` follows the append; hoisted before
+                    \* the switch it is undone by finish()
+                    /\ used' = ~USED_HOISTED
+               ELSE /\ cursec' = cursec \cup {m.o} /\ used' = TRUE
+                    /\ UNCHANGED <<listed, nsect, inTr>>
+          [] m.ty = "word" ->
+               /\ inTr' = TRUE /\ used' = TRUE /\ UNCHANGED <<listed, nsect, cursec>>
+          [] m.ty = "eof" ->
+               /\ Keep(used \/ USED_HOISTED)
+               /\ cursec' = {} /\ used' = FALSE /\ inTr' = FALSE
+  /\ mpos' = mpos + 1
+  /\ UNCHANGED <<kinds, tail, cut, damage, phase, M, cur, tk, st, val, res>>
 \* the next marker is not (completely) there: Find returns io.EOF; finish()
 LocEnd == /\ phase = "locate" /\ mpos >= 1
-          /\ \/ mpos \in 1..N /\ HdrEndOf(kinds, mpos) > cut
-             \/ mpos > N /\ mpos - N <= Len(TailToks(tail)) /\ MarkerEnd(kinds, tail, mpos - N) > cut
-             \/ mpos > N + Len(TailToks(tail))
-          /\ LET total == nsect + (IF used THEN 1 ELSE 0)
-             IN IF total = 0 THEN res' = "nocontent" /\ phase' = "done" /\ UNCHANGED <<cur, tk>>
-                ELSE phase' = "check" /\ cur' = 0 /\ tk' = 0 /\ UNCHANGED res
-          /\ UNCHANGED <<kinds, tail, cut, damage, mpos, listed, nsect, used, st, val>>
+          /\ IF mpos > Len(M) THEN TRUE ELSE M[mpos].end > cut
+          /\ Keep(used)
+          /\ cursec' = {} /\ used' = FALSE /\ inTr' = FALSE
+          /\ IF nsect + (IF used THEN 1 ELSE 0) = 0
+             THEN res' = "nocontent" /\ phase' = "done" /\ UNCHANGED <<cur, tk>>
+             ELSE phase' = "check" /\ cur' = 0 /\ tk' = 0 /\ UNCHANGED res
+          /\ UNCHANGED <<kinds, tail, cut, damage, mpos, M, st, val>>
 
 \* -- checkObjects: parse every candidate in file order
 Pending == {i \in listed : st[i] = "-"}
 CheckBegin == /\ phase = "check" /\ cur = 0 /\ Pending # {}
               /\ cur' = CHOOSE i \in Pending : \A j \in Pending : i <= j
               /\ tk' = 1
-              /\ UNCHANGED <<kinds, tail, cut, damage, phase, mpos, listed, nsect, used, st, val, res>>
+              /\ UNCHANGED <<kinds, tail, cut, damage, phase, mpos, listed, nsect, cursec, used, inTr, M, st, val, res>>
 Avail == cut - StartOf(kinds, cur)
 ParseTok == /\ phase = "check" /\ cur # 0 /\ tk <= Len(ObjToks(kinds[cur]))
             /\ TokEnd(kinds[cur], tk) <= Avail
             /\ tk' = tk + 1
-            /\ UNCHANGED <<kinds, tail, cut, damage, phase, mpos, listed, nsect, used, cur, st, val, res>>
+            /\ UNCHANGED <<kinds, tail, cut, damage, phase, mpos, listed, nsect, cursec, used, inTr, M, cur, st, val, res>>
 ParseDone == /\ phase = "check" /\ cur # 0 /\ tk = Len(ObjToks(kinds[cur])) + 1
              /\ st' = [st EXCEPT ![cur] = "ok"] /\ cur' = 0 /\ tk' = 0
-             /\ UNCHANGED <<kinds, tail, cut, damage, phase, mpos, listed, nsect, used, val, res>>
+             /\ UNCHANGED <<kinds, tail, cut, damage, phase, mpos, listed, nsect, cursec, used, inTr, M, val, res>>
 ParseStop == /\ phase = "check" /\ cur # 0 /\ tk <= Len(ObjToks(kinds[cur]))
              /\ TokEnd(kinds[cur], tk) > Avail
              /\ \E stop \in ImplStops(ObjToks(kinds[cur])[tk], TokStart(kinds[cur], tk) < Avail) :
@@ -218,25 +259,25 @@ ParseStop == /\ phase = "check" /\ cur # 0 /\ tk <= Len(ObjToks(kinds[cur]))
                 IN IF v = "broken"
                    THEN st' = [st EXCEPT ![cur] = "broken"] /\ cur' = 0 /\ tk' = 0 /\ UNCHANGED <<phase, res>>
                    ELSE res' = "abort" /\ phase' = "done" /\ UNCHANGED <<st, cur, tk>>
-             /\ UNCHANGED <<kinds, tail, cut, damage, mpos, listed, nsect, used, val>>
+             /\ UNCHANGED <<kinds, tail, cut, damage, mpos, listed, nsect, cursec, used, inTr, M, val>>
 CheckEnd == /\ phase = "check" /\ cur = 0 /\ Pending = {}
             /\ res' = "ok" /\ phase' = "read"
-            /\ UNCHANGED <<kinds, tail, cut, damage, mpos, listed, nsect, used, cur, tk, st, val>>
+            /\ UNCHANGED <<kinds, tail, cut, damage, mpos, listed, nsect, cursec, used, inTr, M, cur, tk, st, val>>
 
 \* -- FileInfo.Read of every listed object (same parser, same bytes)
 ReadOne == /\ phase = "read"
            /\ \E i \in listed : /\ val[i] = "-"
                                 /\ val' = [val EXCEPT ![i] = ReadVal(kinds, cut, i)]
-           /\ UNCHANGED <<kinds, tail, cut, damage, phase, mpos, listed, nsect, used, cur, tk, st, res>>
+           /\ UNCHANGED <<kinds, tail, cut, damage, phase, mpos, listed, nsect, cursec, used, inTr, M, cur, tk, st, res>>
 ReadEnd == /\ phase = "read" /\ \A i \in listed : val[i] # "-"
            /\ phase' = "done"
-           /\ UNCHANGED <<kinds, tail, cut, damage, mpos, listed, nsect, used, cur, tk, st, val, res>>
+           /\ UNCHANGED <<kinds, tail, cut, damage, mpos, listed, nsect, cursec, used, inTr, M, cur, tk, st, val, res>>
 
 Next == \/ \E k \in Kinds : AddObj(k)
         \/ \E t \in Tails : CloseFile(t)
         \/ Truncate
         \/ \E d \in Damages : Damage(d)
-        \/ LocHeader \/ LocObj \/ LocTail \/ LocEnd
+        \/ LocHeader \/ LocMarker \/ LocEnd
         \/ CheckBegin \/ ParseTok \/ ParseDone \/ ParseStop \/ CheckEnd
         \/ ReadOne \/ ReadEnd
 Spec == Init /\ [][Next]_vars
